@@ -89,10 +89,30 @@ func VerifH_C19_DecodeTotal() {
 	c19StrLen = vrt.Param("strlen", 1)
 	// the arbitrary value V sits below a concrete context so that every schema node kind
 	// (incl. list entries and list keys) receives every value shape within the budget
-	v := c19Value("V")
-	var doc interface{}
-	ctx := vrt.Choice("context", 8)
+	var doc, v interface{}
+	ctx := vrt.Choice("context", 9)
+	if ctx != 8 {
+		v = c19Value("V")
+	}
+	var qleaf, qval string
 	switch ctx {
+	case 8:
+		// identityref / union leaves given "<prefix><suffix>": RFC 7951 §6.8 lets the
+		// decoder fall back to the simple form of an identity qualified with the leaf's own
+		// module; nothing else may be rewritten
+		qleaf = []string{"idr", "un", "un2"}[vrt.Choice("qleaf", 3)]
+		qval = []string{"", "m:", "m2:", "zz:"}[vrt.Choice("qprefix", 4)]
+		switch vrt.Choice("qsuffix", 4) {
+		case 0:
+			qval += "local-id"
+		case 1:
+			qval += "remote-id"
+		case 2:
+			qval += "m2:remote-id"
+		default:
+			qval += vrt.String("qsym", 1+vrt.Choice("qlen", 2))
+		}
+		doc = map[string]interface{}{"top": map[string]interface{}{qleaf: qval}}
 	case 0:
 		doc = v
 	case 1:
@@ -131,6 +151,23 @@ func VerifH_C19_DecodeTotal() {
 	}
 	vrt.Reach("c19.decode.accepted")
 	vrt.Assert(c19Conforms(ms, tree, nil), "c19.decode.accepted-tree-conforms-to-the-schema")
+	if ctx == 8 {
+		top := tree.YangDataChildrenNoSorting()
+		if len(top) != 1 || len(top[0].YangDataChildrenNoSorting()) != 1 {
+			vrt.Assert(false, "c19.decode.leaf-present")
+			return
+		}
+		vals := top[0].YangDataChildrenNoSorting()[0].YangDataValuesNoSorting()
+		if len(vals) != 1 {
+			vrt.Assert(false, "c19.decode.one-value")
+			return
+		}
+		got := vals[0]
+		vrt.Observe("qualified", qleaf, qval, got)
+		simple := (got == "local-id" || got == "m2:remote-id") && qval == "m:"+got
+		vrt.Assert(got == qval || simple, "c19.decode.only-own-module-identities-are-rewritten")
+		return
+	}
 	// a scalar handed to a leaf arrives unaltered (independent rendering of the JSON scalar)
 	if ctx == 7 {
 		var want string
